@@ -9,6 +9,7 @@
 //                            every stride-th triple print the ingredients of value():
 //                            "V n1 n2 n3 beta chi g13 g24 g14 g23 value" (hex floats)
 #include "ed_common.h"
+#include <memory>
 using namespace Pomerol;
 
 struct Probe {
@@ -93,15 +94,21 @@ int main(int argc, char* argv[]) {
         } else if (cmd == "vertex") {
             int i, j, k, l; long N, lo, hi, stride;
             ss >> i >> j >> k >> l >> N >> lo >> hi >> stride;
+            // optional trailing 1: the Vertex4 object is constructed BEFORE chi and the four Green's functions are prepared and computed
+            // (it refers to them; what it evaluates must be what they hold when it is asked)
+            int early = 0; ss >> early;
             TwoParticleGF chi(*ed->S, *ed->H, ed->Ops->getAnnihilationOperator(i), ed->Ops->getAnnihilationOperator(j),
                               ed->Ops->getCreationOperator(k), ed->Ops->getCreationOperator(l), *ed->rho);
-            chi.prepare(); chi.compute();
             GreensFunction g13(*ed->S, *ed->H, ed->Ops->getAnnihilationOperator(i), ed->Ops->getCreationOperator(k), *ed->rho);
             GreensFunction g24(*ed->S, *ed->H, ed->Ops->getAnnihilationOperator(j), ed->Ops->getCreationOperator(l), *ed->rho);
             GreensFunction g14(*ed->S, *ed->H, ed->Ops->getAnnihilationOperator(i), ed->Ops->getCreationOperator(l), *ed->rho);
             GreensFunction g23(*ed->S, *ed->H, ed->Ops->getAnnihilationOperator(j), ed->Ops->getCreationOperator(k), *ed->rho);
+            std::unique_ptr<Vertex4> gp;
+            if (early) gp.reset(new Vertex4(chi, g13, g24, g14, g23));
+            chi.prepare(); chi.compute();
             g13.prepare(); g13.compute(); g24.prepare(); g24.compute(); g14.prepare(); g14.compute(); g23.prepare(); g23.compute();
-            Vertex4 gamma(chi, g13, g24, g14, g23);
+            if (!early) gp.reset(new Vertex4(chi, g13, g24, g14, g23));
+            Vertex4& gamma = *gp;
             gamma.compute(N);
             long count = 0, mism = 0, c2 = 0;
             for (long n1 = lo; n1 <= hi; ++n1) for (long n2 = lo; n2 <= hi; ++n2) for (long n3 = lo; n3 <= hi; ++n3) {
